@@ -52,6 +52,42 @@ package evm
 
 //@ func (*EVMApp).OnCommit
 //@   props C05
-//@   requires app != nil && app.currentState != nil && app.pool != nil && block != nil && block.Header != nil
+//@   requires app != nil && app.currentState != nil && app.pool != nil && block != nil && block.Header != nil && app.stateDb != nil && app.keyValueHistoryManager != nil
 //@   ensures  [accumulators-reset] result1 == nil ==> app.receipts == nil && app.kvs == nil
-//@   atcall Commit assert [commit-the-executed-state] arg_s == app.currentState
+//@   atcall (*StateDB).Commit assert [commit-the-executed-state] arg_s == app.currentState
+
+// the executed state is opened at the PERSISTED application hash, not at any in-memory root
+//@ ghost gOpenedAt common.Hash
+//@ ghost gLastHash common.Hash
+//@ func (*EVMApp).OnExecute
+//@   props C05
+//@   requires app != nil && block != nil && block.Data != nil && app.Signer != nil
+//@   atcall getLastAppHash set gLastHash = result
+//@   atcall New assert [state-opened-at-persisted-root] arg0 == gLastHash && calls(getLastAppHash) == 1
+//@   atcall exeWithCPUParallelVeirfy assert [executes-the-block-transactions-in-block-order] arg_txs == block.Data.Txs
+//@   loop 0 invariant 0 <= $i
+//@   loop 1 invariant true
+
+// the receipts hash is the Merkle root of [rlp(receipt_0) ... rlp(receipt_n) rlp(kv_0) ... rlp(kv_m)] in accumulator order
+//@ func (*EVMApp).SaveReceipts
+//@   props C05
+//@   requires app != nil && app.stateDb != nil && app.keyValueHistoryManager != nil
+//@   invariant-assumed forall(j, 0, len(app.receipts), app.receipts[j] != nil) && forall(j, 0, len(app.kvs), app.kvs[j] != nil)
+//@   assigns  app.keyValueHistories, alloftype(sync.Mutex)
+//@   atcall SimpleHashFromHashes assert [hash-covers-every-receipt-and-kv-once] len(arg_hashes) == len(app.receipts) + len(app.kvs)
+//@   ensures  [history-accumulator-reset] result1 == nil ==> app.keyValueHistories == nil && calls(SimpleHashFromHashes) == 1
+//@   loop 0 invariant 0 <= $i && $i <= len(app.receipts) && len(savedReceipts) == $i && app != nil && receiptBatch != nil && fresh(savedReceipts)
+//@   loop 1 invariant 0 <= $i && $i <= len(app.kvs) && len(savedReceipts) == len(app.receipts) + $i && app != nil && receiptBatch != nil && fresh(savedReceipts)
+
+// main loop of the block executor: begin/exec/end once per transaction, in block order, whatever the statuses are
+//@ func exeWithCPUParallelVeirfy
+//@   props C05 C09
+//@   requires signer != nil
+//@   assigns  allbut(gtypes.Block, gtypes.Data, gtypes.Header)
+//@   atcall beginExec assert [one-begin-per-transaction-in-order] calls(beginExec) == i + 1 && calls(end) == i
+//@   atcall exec assert [exec-for-the-current-transaction] arg0 == i && calls(beginExec) == i + 1 && calls(end) == i
+//@   atcall end assert [one-end-per-transaction-in-order] calls(end) == i + 1 && calls(beginExec) == i + 1
+//@   loop 0 invariant 0 <= i
+//@   loop 1 invariant 0 <= i && 0 <= i && calls(beginExec) == i && calls(end) == i && size == len(txs)
+//@   loop 2 invariant 0 <= j && calls(beginExec) == i + 1 && calls(end) == i
+//@   loop 3 invariant calls(beginExec) == i + 1 && calls(end) == i
